@@ -320,6 +320,32 @@ func c17Main(tier, build, repo, cffBin string) {
 			}
 		}
 	}
+	// the same invocations in a copy of the tree at another place: the text does not depend on where the tree is
+	reloc := fileSetRuns(modes)
+	execFileSetsAt(cffBin, filepath.Join(build, "fs-elsewhere", "a", "b"), repo, reloc)
+	relocCompared := 0
+	for i, r := range reloc {
+		for src, content := range r.Outputs {
+			if prev, ok := runs[i].Outputs[src]; ok {
+				relocCompared++
+				if prev != content {
+					report("relocated:"+r.Mode+":"+src, fmt.Sprintf("output for %s depends on where the source tree is (cff %s run in two copies of the tree): %s", src, strings.Join(r.Args, " "), firstTextDiff(prev, content)), map[string]any{"args": r.Args})
+				}
+			}
+		}
+	}
+	evaluations += len(reloc)
+	// a file that yields output in one invocation yields it in every invocation that covers it
+	for _, r := range runs {
+		for _, src := range r.Allowed {
+			if _, ok := r.Outputs[src]; ok {
+				continue
+			}
+			if _, elsewhere := ref[r.Mode+"/"+src]; elsewhere || r.Mode == "source-map" {
+				report("fileset-missing:"+r.Mode+":"+src, fmt.Sprintf("no output for %s in this invocation (cff %s) although other invocations covering the file produce one", src, strings.Join(r.Args, " ")), map[string]any{"args": r.Args})
+			}
+		}
+	}
 	evaluations += len(runs)
 
 	// ---- (b2)+(c) large packages: whole-package run twice, then every file alone
@@ -402,6 +428,7 @@ func c17Main(tier, build, repo, cffBin string) {
 			"largest_map":                         maxKeys,
 			"file_set_invocations":                len(runs),
 			"file_set_outputs_compared":           fsCompared,
+			"relocated_tree_outputs_compared":     relocCompared,
 			"alone_vs_package_runs":               aloneRuns,
 			"repeat_comparisons":                  repeatCompared,
 			"known_findings_hit":                  rep.KnownHits,
